@@ -2,6 +2,7 @@
 Helper lemmas for C06 (engine front ends and the frame property of the interpreter).
 -/
 import PybtexModel.Model.Engine
+import PybtexModel.Lemmas.Crossref
 
 namespace Pybtex.Engine
 open Pybtex Pybtex.Interp
@@ -1288,5 +1289,212 @@ theorem runProgram_keep (fuel : Nat) (inp : Input) (prog : Bst.Program)
     | ok s1 =>
       rw [h1] at h
       exact keepR_trans h (ih (fun c hc => hp c (List.mem_cons_of_mem _ hc)) s1 (h.2.trans hdb))
+
+
+
+/-! ### the view of a key is determined by its cross-reference closure -/
+
+/-- `C` is a set of keys on which the two databases have the same entries and which is closed
+under following `crossref` fields (as spelled in the field) in `db₁` -/
+structure ClosedOn (C : Str → Prop) (db₁ db₂ : BibData) : Prop where
+  hget : ∀ k, C k → db₁.entries.getItem k = db₂.entries.getItem k
+  hcl : ∀ k e x, C k → db₁.entries.getItem k = some e → e.fields.getItem xrefName = some x → C x
+
+theorem findField_congr {C : Str → Prop} {db₁ db₂ : BibData} (h : ClosedOn C db₁ db₂) (name : Str) :
+    ∀ (n : Nat) (visited : List Str) (e : Entry), unvisited db₁.entries.dict visited ≤ n →
+      (∀ x, e.fields.getItem xrefName = some x → C x) →
+      findField (some db₁) visited e name = findField (some db₂) visited e name := by
+  intro n
+  induction n with
+  | zero =>
+    intro visited e hn he
+    rw [findField_eq, findField_eq]
+    cases e.own name with
+    | some v => rfl
+    | none =>
+      simp only []
+      cases hx : e.fields.getItem xrefName with
+      | none => rfl
+      | some x =>
+        simp only []
+        split
+        · rfl
+        · rename_i hv
+          rw [← h.hget x (he x hx)]
+          cases hp : db₁.entries.getItem x with
+          | none => rfl
+          | some p =>
+            have := unvisited_lt db₁.entries.dict visited (lower x) p hp (by simpa using hv)
+            omega
+  | succ n ih =>
+    intro visited e hn he
+    rw [findField_eq, findField_eq]
+    cases e.own name with
+    | some v => rfl
+    | none =>
+      simp only []
+      cases hx : e.fields.getItem xrefName with
+      | none => rfl
+      | some x =>
+        simp only []
+        split
+        · rfl
+        · rename_i hv
+          rw [← h.hget x (he x hx)]
+          cases hp : db₁.entries.getItem x with
+          | none => rfl
+          | some p =>
+            have := unvisited_lt db₁.entries.dict visited (lower x) p hp (by simpa using hv)
+            exact ih (lower x :: visited) p (by omega) (fun y hy => h.hcl x p y (he x hx) hp hy)
+
+/-- two databases that coincide on a `crossref`-closed set of keys agree on every key of that
+set that has an entry -/
+theorem agree_of_closed {C : Str → Prop} {db₁ db₂ : BibData} (h : ClosedOn C db₁ db₂) (K : List Str)
+    (hK : ∀ k ∈ K, C k ∧ (db₁.entries.getItem k).isSome = true) : Agree K db₁ db₂ := by
+  intro k hk
+  obtain ⟨hC, hs⟩ := hK k hk
+  cases he : db₁.entries.getItem k with
+  | none => rw [he] at hs; cases hs
+  | some e =>
+    have hcl : ∀ x, e.fields.getItem xrefName = some x → C x := fun x hx => h.hcl k e x hC he hx
+    refine ⟨e, e, rfl, by rw [← h.hget k hC, he], rfl, ?_, ?_⟩
+    · intro n
+      simp only [bstFieldValue, Entry.findField]
+      rw [findField_congr h n _ [] e (Nat.le_refl _) hcl]
+    · simp only [bstCrossrefValue]
+      cases hx : e.fields.getItem xrefName with
+      | none => rfl
+      | some x => simp only []; rw [h.hget x (hcl x hx)]
+
+
+
+/-! ### reduction of the `READ` hypothesis of the frame theorem -/
+
+/-- the two `READ` results differ in the database only as soon as preamble, reader reports and
+citation resolution (keys and reports) coincide -/
+theorem readFinish_setDb (inp₁ inp₂ : Input) (s : St) (P₁ P₂ : Bib.St)
+    (hpre : P₂.db.preamble.flatten = P₁.db.preamble.flatten)
+    (herr : P₂.errs.map Report.bib = P₁.errs.map Report.bib)
+    (hx : (convertDb P₂.db).addExtraCitations s.citations inp₂.minCrossrefs =
+      (convertDb P₁.db).addExtraCitations s.citations inp₁.minCrossrefs)
+    (hm : (convertDb P₂.db).removeMissing ((convertDb P₁.db).addExtraCitations s.citations inp₁.minCrossrefs).1 =
+      (convertDb P₁.db).removeMissing ((convertDb P₁.db).addExtraCitations s.citations inp₁.minCrossrefs).1) :
+    readFinish inp₂ s P₂ = setDb (convertDb P₂.db) (readFinish inp₁ s P₁) := by
+  simp only [readFinish, setDb, hpre, herr, hx, hm]
+
+/-! ### an entry of the reader's list that is not wanted where it stands changes nothing -/
+
+theorem addStep_unwanted (st : Bib.St) (ke : Str × Bib.Entry) (h : Bib.wantEntry st.db ke.1 = false) :
+    addStep st ke = st := by
+  simp only [addStep, Bib.addEntry, h, Bool.not_false, if_true]
+
+theorem foldl_addStep_insert (pre post : List (Str × Bib.Entry)) (ke : Str × Bib.Entry) (st0 : Bib.St)
+    (h : Bib.wantEntry (pre.foldl addStep st0).db ke.1 = false) :
+    (pre ++ ke :: post).foldl addStep st0 = (pre ++ post).foldl addStep st0 := by
+  rw [List.foldl_append, List.foldl_append, List.foldl_cons, addStep_unwanted _ _ h]
+
+/-- the `crossref` values of the entries of a reader's list -/
+def xrefsOf (es : List (Str × Bib.Entry)) : List Str :=
+  es.filterMap fun ke => Bib.findFieldCI ke.2.fields "crossref".toList
+
+theorem addStep_wanted (st : Bib.St) (ke : Str × Bib.Entry) (w : CISet) (seen : List Str)
+    (hw : st.db.wanted = some w) (hs : SetRel w seen) :
+    ∃ w' seen', (addStep st ke).db.wanted = some w' ∧ SetRel w' seen' ∧
+      ∀ x ∈ seen', x ∈ seen ∨ Bib.findFieldCI ke.2.fields "crossref".toList = some x := by
+  unfold addStep Bib.addEntry Bib.handleError
+  split
+  · rename_i h
+    revert h
+    split
+    · intro h; cases h; exact ⟨w, seen, hw, hs, fun x hx => .inl hx⟩
+    · split
+      · split
+        · intro h; cases h
+        · intro h; cases h; exact ⟨w, seen, hw, hs, fun x hx => .inl hx⟩
+      · intro h
+        cases h
+        simp only [hw]
+        cases hx : Bib.findFieldCI ke.2.fields "crossref".toList with
+        | none => exact ⟨w, seen, rfl, hs, fun x hx => .inl hx⟩
+        | some cr =>
+          refine ⟨w.add cr, cr :: seen, rfl, hs.add cr, ?_⟩
+          intro x hx'
+          rcases List.mem_cons.1 hx' with rfl | hx'
+          · exact .inr rfl
+          · exact .inl hx'
+  · rename_i h
+    revert h
+    split
+    · intro h; cases h
+    · split
+      · split
+        · intro h; cases h; exact ⟨w, seen, hw, hs, fun x hx => .inl hx⟩
+        · intro h; cases h
+      · intro h; cases h
+
+theorem foldl_addStep_wanted (es : List (Str × Bib.Entry)) (st : Bib.St) (w : CISet) (seen : List Str)
+    (hw : st.db.wanted = some w) (hs : SetRel w seen) :
+    ∃ w' seen', (es.foldl addStep st).db.wanted = some w' ∧ SetRel w' seen' ∧
+      ∀ x ∈ seen', x ∈ seen ∨ x ∈ xrefsOf es := by
+  induction es generalizing st w seen with
+  | nil => exact ⟨w, seen, hw, hs, fun x hx => .inl hx⟩
+  | cons ke es ih =>
+    obtain ⟨w1, seen1, hw1, hs1, h1⟩ := addStep_wanted st ke w seen hw hs
+    obtain ⟨w2, seen2, hw2, hs2, h2⟩ := ih (addStep st ke) w1 seen1 hw1 hs1
+    refine ⟨w2, seen2, hw2, hs2, ?_⟩
+    intro x hx
+    rcases h2 x hx with h | h
+    · rcases h1 x h with h | h
+      · exact .inl h
+      · exact .inr (by simp only [xrefsOf, List.filterMap_cons, h]; exact List.mem_cons_self ..)
+    · refine .inr ?_
+      simp only [xrefsOf, List.filterMap_cons]
+      split
+      · exact h
+      · exact List.mem_cons_of_mem _ h
+
+/-- static form: an entry whose key is (up to case) neither cited nor the `crossref` value of an
+entry standing before it — and no `*` is cited or referenced — is skipped -/
+theorem unwanted_of_static (cits : List Str) (pre : List (Str × Bib.Entry)) (key : Str) (st0 : Bib.St)
+    (hw0 : st0.db.wanted = some (CISet.ofList cits))
+    (hk : ∀ x ∈ cits ++ xrefsOf pre, Spec.keq key x = false ∧ Spec.keq ['*'] x = false) :
+    Bib.wantEntry (pre.foldl addStep st0).db key = false := by
+  have hs0 : SetRel (CISet.ofList cits) cits := fun k => contains_ofList cits k
+  obtain ⟨w, seen, hw, hs, hsub⟩ := foldl_addStep_wanted pre st0 _ cits hw0 hs0
+  simp only [Bib.wantEntry, hw, hs key, hs ['*']]
+  have : ∀ k, (∀ x ∈ cits ++ xrefsOf pre, Spec.keq k x = false) → seen.any (Spec.keq k) = false := by
+    intro k hk
+    rw [List.any_eq_false]
+    intro x hx
+    have := hk x (by rcases hsub x hx with h | h <;> simp [h])
+    simp [this]
+  rw [this key (fun x hx => (hk x hx).1), this ['*'] (fun x hx => (hk x hx).2)]
+  rfl
+
+
+/-! ### runs that differ in the `READ` step only -/
+
+theorem runProgram_congr_read (fuel : Nat) (inp₁ inp₂ : Input) (prog : Bst.Program) (s : St)
+    (h : ∀ c s, upper c.name = "READ".toList → runCommand fuel inp₁ c s = runCommand fuel inp₂ c s) :
+    runProgram fuel inp₁ prog s = runProgram fuel inp₂ prog s := by
+  induction prog generalizing s with
+  | nil => rfl
+  | cons c cs ih =>
+    simp only [runProgram]
+    have : runCommand fuel inp₁ c s = runCommand fuel inp₂ c s := by
+      by_cases hc : upper c.name = "READ".toList
+      · exact h c s hc
+      · exact runCommand_inp fuel inp₁ inp₂ c s hc
+    rw [this]
+    cases runCommand fuel inp₂ c s with
+    | error e => rfl
+    | ok s1 => exact ih s1
+
+theorem run_congr_read (fuel : Nat) (inp₁ inp₂ : Input) (prog : Bst.Program)
+    (hc : inp₁.citations = inp₂.citations)
+    (h : ∀ c s, upper c.name = "READ".toList → runCommand fuel inp₁ c s = runCommand fuel inp₂ c s) :
+    run fuel prog inp₁ = run fuel prog inp₂ := by
+  simp only [run, ← hc]
+  rw [runProgram_congr_read fuel inp₁ inp₂ prog _ h]
 
 end Pybtex.Engine
